@@ -508,7 +508,23 @@ def tensor_getitem(it, t: STensor, idx, node=None):
             lo = i.start if i.start is not None else 0
             hi = i.stop
             if is_sym(lo) or is_sym(hi):
-                raise OutOfSubset("symbolic slice bound on tensor", node)
+                # symbolic bounds: python's slice semantics (negative bounds count from the end, everything clamped to [0, d])
+                dz = dim_z3(d)
+
+                def pyclamp(b, default):
+                    if b is None:
+                        return default
+                    bz = to_z3(b, "int")
+                    bz = z3.If(bz < 0, bz + dz, bz)
+                    return z3.If(bz < 0, z3.IntVal(0), z3.If(bz > dz, dz, bz))
+                lo_z = pyclamp(lo if not (isinstance(lo, int) and lo == 0) else None, z3.IntVal(0))
+                hi_z = pyclamp(hi, dz)
+                nd = simplify_dim(it.cx, z3.If(hi_z > lo_z, hi_z - lo_z, z3.IntVal(0)))
+                lo_s = simplify_dim(it.cx, lo_z)
+                new_shape.append(nd)
+                plan.append(("var", lo_s))
+                src += 1
+                continue
             if lo == 0 and hi is None:
                 nd = d                      # full slice
             elif isinstance(d, int):
